@@ -306,7 +306,10 @@ def _call(plan, cfg, objs, op, xs, ys, eps, ctx, fired, S, real_full):
     snap = elem_snapshot(x)
     kw = {}
     if op.get('effort') and obj.impl == 'pyfftw':
-        kw['flags'] = ('FFTW_' + op['effort'].upper(),)
+        if cfg['cls'] == 'DFT':
+            kw['flags'] = ('FFTW_' + op['effort'].upper(),)
+        else:
+            kw['planning_effort'] = op['effort']
     if real_full and not fwd:
         # complex -> real transform that is not half-complex: the library
         # builds it but cannot evaluate it (recorded finding)
